@@ -87,6 +87,8 @@ func c04Commands(f *concFix) []crashCmd {
 	add("set-flags{title,state,claim}", core.R("", "--json", "set", f.T1, "--title", "renamed", "--state", "doing", "--claim", "ag"))
 	add("set--agent{state:doing}", core.R("", "--json", "--agent", "ag", "set", f.T1).In(`{"state":"doing"}`))
 	add("set{title,5KB-body,claim,state}", core.R("", "--json", "set", f.T1).In(jsonStr(map[string]string{"title": "renamed", "body": strings.Repeat("0123456789", 520), "claim": "ag", "state": "blocked"})))
+	add("set{title,100KB-body,claim,state}", core.R("", "--json", "set", f.T1).In(jsonStr(map[string]string{"title": "renamed", "body": strings.Repeat("0123456789", 10200), "claim": "ag", "state": "blocked"})))
+	add("new-task{100KB-body,claim}", core.R("", "--json", "new", "task").In(jsonStr(map[string]string{"title": "NB", "body": strings.Repeat("abcdefghij", 10200), "claim": "creator"})))
 	add("prune", core.R("", "--json", "prune", "--yes"))
 	add("plan-2", core.R("", "--json", "plan").In(`{"title":"P","tasks":[{"title":"pa"},{"title":"pb","after":["pa"]}]}`))
 	add("plan-3", core.R("", "--json", "plan").In(`{"title":"P","body":"b","tasks":[{"title":"pa"},{"title":"pb","after":["pa"]},{"title":"pc","after":["pa","pb"]}]}`))
